@@ -171,6 +171,12 @@ func ParseBlock(header *BlockHeader, compressedData []byte) (*Block, error) {
 		offset += consumed
 	}
 
+	// The block header is not covered by the checksum: an entry count that is too small must
+	// not silently drop the remaining entries of the block.
+	if offset != len(uncompressed) {
+		return nil, ErrCorruptedBlock
+	}
+
 	return &Block{
 		Header:  *header,
 		Entries: entries,
